@@ -1178,6 +1178,21 @@ func (r *RouteTable) resyncIface(nl netlinkshim.Interface, ifaceName string) err
 			r.kernelRoutes.Dataplane().Delete(routeKey)
 		}
 	}
+
+	// Also drop any other routes that we thought were in the kernel on this interface
+	// but that the listing did not return; for example, a route that we own but don't
+	// (currently) want, which is only being kept by the grace period, and which the
+	// kernel removed when the link went down.  Otherwise, if such a route becomes
+	// desired later we'd wrongly believe that it's already programmed.
+	var vanished []RouteKey
+	r.kernelRoutes.Dataplane().Iter(func(routeKey RouteKey, kernRoute kernelRoute) {
+		if kernRoute.Ifindex == ifIndex && !seenRoutes.Contains(routeKey) {
+			vanished = append(vanished, routeKey)
+		}
+	})
+	for _, routeKey := range vanished {
+		r.kernelRoutes.Dataplane().Delete(routeKey)
+	}
 	partialResyncTimeSummary.Observe(r.time.Since(startTime).Seconds())
 
 	return nil
